@@ -289,6 +289,10 @@ def _operators(chk, ctx) -> None:
     hs = hand.methods.get('__hash__')
     if eq is None or hs is None:
         raise AnalysisError('Hand.__eq__/__hash__ vanished')
+    ni = [p for p in ctx.paths(eq) if p.returned and p.outcome[1] == ('name', 'NotImplemented')]
+    chk.ob('C04.operators', 'Hand.__eq__:foreign', bool(ni) and all(T.spec('type(self) != type(other)') in p.conds() for p in ni)
+           and all(T.spec('type(self) == type(other)') in p.conds() for p in ctx.paths(eq) if p.returned and p not in ni), eq.loc,
+           'hands of different types are never equal (NotImplemented exactly for a foreign type)')
     rets = [p.outcome[1] for p in ctx.paths(eq) if p.returned and p.outcome[1] != ('name', 'NotImplemented')]
     chk.ob('C04.operators', 'Hand.__eq__', rets == [T.cmp('Eq', se, oe)], eq.loc,
            'equality exactly for hands of equal rank (same entry)', got=[T.show(r) for r in rets], want='self.entry == other.entry')
